@@ -38,7 +38,7 @@ PROBES = ["split_remainder_nonzero", "insufficient_funds_refused", "less_than_on
           "cache_roundtrip_bytes", "torn_cache_file_read", "provider_lookup_cached", "observed_stuck_after_heal",
           "observed_txdb_returned_unrequested_tx", "spendable_form_text", "spendable_form_dict", "display_roundtrip",
           "attach_unspents", "fee_after_in_place_edit", "validate_against_unfiltered_source", "validate_against_plain_dict",
-          "validate_refused_colluding_source", "attach_left_unknown", "build_by_hand_distribute_from_split_pool"]
+          "validate_refused_colluding_source", "attach_left_unknown", "build_by_hand_distribute_from_split_pool", "build_create_signed_tx"]
 
 CACHE = "/wallet/cache"
 
@@ -56,9 +56,22 @@ def _amount(r):
                        (21 * 10**14, 1), (r.between(1, 21 * 10**14), 2)])
 
 
+_POOL = {}
+
+
+def _key_hash(d):
+    """hash160 of the compressed public key of secret d (planner side, by the model; memoised pure function)"""
+    if d not in _POOL:
+        from dsim.models import bip32 as mb, ec as mec
+        _POOL[d] = mb.hash160(mb.ser_p(mec.SECP256K1.mul_g(d))).hex()
+    return _POOL[d]
+
+
 def gen_plan(rng, tier, index, config=None):
     r = rng.fork("ops")
-    keys = [r.bytes(20).hex() for _ in range(5)]
+    # the wallet's own keys: small secrets from a fixed pool, so that the one-call signing route can be taken too
+    ds = r.sample(range(1, 17), 5)
+    keys = [_key_hash(d) for d in ds]
     steps = []
     faulty = config != "fault-free" and r.chance(0.75)
     ntx = 0
@@ -132,7 +145,7 @@ def gen_plan(rng, tier, index, config=None):
                     fee = max(0, tin - fixed_ - target)
             steps.append({"op": "build", "id": "x%d" % nbuilt, "spend": spends, "pay": pays, "fee": fee,
                           "lock_time": r.pick([0, 0, 500000]), "version": r.pick([1, 1, 2]),
-                          "route": r.weighted([("create_tx", 4), ("manual", 1)])})
+                          "route": r.weighted([("create_tx", 4), ("manual", 1), ("signed", 1)])})
             nbuilt += 1
         elif op == "validate":
             steps.append({"op": "validate", "tx": "x%d" % r.below(nbuilt), "db": r.weighted([("txdb", 5), ("raw", 3 if faulty else 1), ("dict", 1)])})
@@ -196,7 +209,7 @@ def gen_plan(rng, tier, index, config=None):
         steps.append({"op": "provider", "p": 1, "mode": "honest"})
         steps.append({"op": "heal_probe"})
     return {"world": NAME, "config": {"name": "faulty" if faulty else "fault-free", "network": r.pick(["BTC", "BTC", "XTN"]),
-                                      "keys": keys}, "steps": steps}
+                                      "keys": keys, "ds": ds}, "steps": steps}
 
 
 # ---------------------------------------------------------------------------------------------
@@ -222,6 +235,7 @@ def execute(plan, ctx):
     cfg = plan["config"]
     W.net = network_for_netcode(cfg["network"])
     W.keys = [bytes.fromhex(k) for k in cfg["keys"]]
+    W.ds = cfg.get("ds") or []
     W.fs = SimFS()
     W.ledger = {}       # id -> (model tx, bytes, txid)
     W.by_hash = {}
@@ -498,6 +512,11 @@ def _op_build(ctx, W, st):
     remaining = total_in - fixed - fee_n
     must_raise = zero > 0 and (remaining < 0 or remaining < zero)
     def create(objs, payables, **kw):
+        if st.get("route") == "signed" and W.ds:
+            # the one-call route: the wallet holds the keys of every output it ever received
+            ctx.probe("build_create_signed_tx")
+            wifs = [W.net.keys.private(d).wif() for d in W.ds]
+            return W.net.tx_utils.create_signed_tx(objs, payables, wifs=wifs, **kw)
         if st.get("route") != "manual":
             return W.net.tx_utils.create_tx(objs, payables, **kw)
         # the same thing by hand: the wallet assembles the transaction itself and asks for the split pool to be distributed
